@@ -73,8 +73,12 @@ func (ur *usageTracker) NewReport(serviceName, version, hostname string, now tim
 	if err != nil {
 		return nil, err
 	}
-	// clear the current data points and keep the last data points until we know the report was sent
-	ur.lastDataPoints = ur.currentDataPoints
+	// clear the current data points and keep them with the last data points until we know the report was sent.
+	// The last data points may still hold usage from an earlier report that could not be sent, so add to them
+	// instead of replacing them.
+	for signal, usage := range ur.currentDataPoints {
+		ur.lastDataPoints[signal] += usage
+	}
 	ur.currentDataPoints = make(map[usageSignal]float64)
 	return data, nil
 }
